@@ -122,6 +122,14 @@ def observe(cmd, args):
                 for x, vx in both:
                     if vx.is_prerelease and has(sp, x): return "%s%s: pre-release %r accepted with prereleases=False" % (name, vtxt, x)
         if wild: return "ok"
+        # theorem C04_self_match_contains: any two spellings of V itself (the text after the operator, str(V), the candidate when it is V):
+        # ==, >=, <=, ~= hold and !=, <, > fail, with pre-releases enabled
+        own = [vtxt, str(V)] + [x for x, vx in both if (vx.epoch, vx.release, vx.pre, vx.post, vx.dev, vx.local) == (V.epoch, V.release, V.pre, V.post, V.dev, V.local)]
+        for name, sp in specs:
+            if sp is None: continue
+            for x in own:
+                if sp.contains(objs.get(x, x), prereleases=True) != (name in ("==", ">=", "<=", "~=")):
+                    return "%s%s: the version itself, spelled %r, is %s" % (name, vtxt, x, "rejected" if name in ("==", ">=", "<=", "~=") else "accepted")
         if ge is not None and le is not None:
             for x, vx in both:
                 if not gate_open(vx): continue
